@@ -87,6 +87,11 @@ CHECKS.update({
    text="Conformance over histories: TLC emits thousands of random step histories over a 14-value store (accessor-then-mutate, constructor-input reuse, value-set copy/mutate, builder reuse, refine twice, derived values); the harness replays them, re-projecting every live value after every step and sub-step, and the trace spec rejects any step after which an existing value reports something different. Every operation call of the bounded universe is repeated and run across physical representations (Pure, RepInvariant) and by 8 goroutines on shared operands in a -race build (results equal the sequential result; any race report is a violation). Copy isolation of ValueSet is re-checked with the ValueSetSM / SetImpl traces.",
    design_ref="DESIGN.md section 4 C20",
    note="Histories are sampled by simulation; the race detector covers the executed operation pairs, not all interleavings. Documented ownership transfers are not mutation targets. Trusted: harness projection, Go race detector, TLC."),
+ "C16": dict(
+   technique="TLA+ round-trip relation RtOK built on the Admits approximation order; TLC-enumerated values with unknown/null members x placeholder constraints replayed through the real msgpack Marshal/Unmarshal; TLC trace validation",
+   text="Bounded-exhaustive: every generated value (unknowns with every refinement kind at one and two positions and any depth, prefixes around/beyond the 256-byte limit with multi-byte characters at the cut, infinite/exclusive/64-bit-limit bounds, nulls, numbers around +-2^63, 2^64 and beyond, exact float64, 0.1 and 1/3 at 512 bits, +-infinity, three physical representations) is marshalled against its type and every single-position placeholder constraint and unmarshalled; TLC checks same type and known-ness at every position, equality of known parts (identity for whole / exact-float64 numbers), that unknown parts admit everything the original admitted, and that marked values are rejected.",
+   design_ref="DESIGN.md section 4 C16",
+   note="Two known-finding classes (type lost for null/unknown/empty under a nested placeholder; whole numbers needing more than 512 bits) are listed in KNOWN_FINDINGS.txt. Bytes are not modelled here (C17 owns inputs). Trusted: harness projection, TLC."),
 })
 
 NOT_APPLICABLE = {}
